@@ -199,7 +199,10 @@ func (e *Encoder) encodeCommitData(hashes []plumbing.Hash, hashToIndex map[plumb
 			return extraEdges, generationV2Data, err
 		}
 
-		unixTime := uint64(commitData.When.Unix())
+		// The commit time occupies the low 34 bits (as in canonical Git's
+		// commit-graph.c); mask it so that a time outside that range cannot
+		// spill into the generation number stored above it.
+		unixTime := uint64(commitData.When.Unix()) & 0x3FFFFFFFF
 		unixTime |= uint64(commitData.Generation) << 34
 		if err = binary.WriteUint64(e, unixTime); err != nil {
 			return extraEdges, generationV2Data, err
